@@ -149,10 +149,15 @@ class Token(str):
     ) -> list[Token]:
 
         l_ = str.split(self, sep, maxsplit)
-        pos = self.pos
+        pos = 0
         for i, s in enumerate(l_):
-            l_[i] = Token(s, pos, self.source, self.filename)
+            if sep is None:
+                # skip the run of whitespace in front of this part
+                pos = str.find(self, s, pos)
+            l_[i] = Token(s, self.pos + pos, self.source, self.filename)
             pos += len(s)
+            if sep is not None:
+                pos += len(sep)
         return cast('list[Token]', l_)
 
     def strip(self, chars: str | None = None, /) -> Token:
